@@ -23,7 +23,7 @@ HEADS = ("REQ", "EVENT", "CLOSE", "AUTH", "req", "NOTICE", 5, None)
 HEAD = HEADS[PARAM % len(HEADS)]
 HALF = (PARAM // len(HEADS)) % 2   # which half of the JUNK pool position a draws from
 EV = C.VALID_EVENT
-JUNK = (None, True, 0, -1, 1.5, "", "a", "\x00\"\\", [], [1], {}, {"id": "x"}, {"kinds": [1]}, {"kinds": "x"}, {"ids": [5]},
+JUNK = (None, True, 0, "probe", 1.5, "", "a", "\x00\"\\", [], [1], {}, {"id": "x"}, {"kinds": [1]}, {"kinds": "x"}, {"ids": [5]},
         {"#e": [1]}, {"#e": []}, {"limit": -1}, {"since": "z"}, [[]], {"tags": "x"}, dict(EV), dict(EV, tags="x"), dict(EV, kind="k"),
         dict(EV, content=5), dict(EV, id=None), {"ids": ["zz"]}, {"authors": ["ab"]}, {"kinds": []}, {"#ee": ["x"]},
         {"kinds": [1], "limit": 0}, {"search": 5})
